@@ -44,15 +44,27 @@ FINDINGS = {
            "post-selection recorded for tket bit 0 to the swapped bit",
     "F33": "from_tk make_units_adjacent: when the second qubit is three or more places to the right of the first, the wire "
            "next to the first qubit is moved away instead of the second qubit being brought in; the gate hits the wrong qubit",
-    "F34": "to_tk Measure(override_bits=True): the destructive variant keeps the measured qubits in the "
-           "register list, and overriding a register after post-processing started is applied before it",
+    "F34": "to_tk Measure(destructive=True, override_bits=True) keeps the measured qubits in the register "
+           "list: later gates and measurements hit the dead register",
+    "F37": "to_tk Measure(override_bits=True) on a bit that classical post-processing has already touched: "
+           "tket overrides the raw register, and the post-processing is applied to the new value afterwards",
     "F35": "Circuit.get_counts(backend=...) / tk.Circuit.get_counts never apply post_processing "
            "(only Circuit.eval(backend=...) does)",
     "F36": "to_tk does not update the `bits` register list for classical gates (or Bits effects) that change "
            "the number of bits: later preparations / swaps / discards index a stale list",
 }
-FLAG_IDS = ["F10", "F30", "F31", "F32", "F34", "F34", "F36"]
+FLAG_IDS = ["F10", "F30", "F31", "F32", "F34", "F37", "F36"]    # order of TkProg.enc_flags
 F34_FLAG = 4
+
+# Which findings the implementation under test has been repaired for.  With a switch on the
+# model takes the repaired behaviour (Tk.fixes), that finding's known-finding recognition is
+# off (its trigger never fires) and its former minimal input is an ordinary regression case.
+# Override: VERIF_C13_FIXED="10,18,31,32,33,34,35" (empty string = nothing repaired).
+FIXED = {"F10": True, "F18": True, "F31": True, "F32": True, "F33": True, "F34": True, "F35": True}   # repaired upstream: 4d69d73 091b536 a32a1bb a8cbf19 5367865 055c288 441b7bf
+if os.environ.get("VERIF_C13_FIXED") is not None:
+    _on = {x.strip().upper().lstrip("F") for x in os.environ["VERIF_C13_FIXED"].split(",") if x.strip()}
+    FIXED = {k: k[1:] in _on for k in FIXED}
+SWITCHES = [int(FIXED[k]) for k in ("F10", "F18", "F31", "F32", "F33", "F34")]   # wire order of TkProg.dec_fixes
 
 
 def snippet(kind, payload):
@@ -294,6 +306,8 @@ CORPUS = [
     ("F32", [[], [[[0, [0, 1, 0]], 0], [[1, [0]], 0], [[5, 2, 1, 0], 0], [[4, 0, 0], 0]]]),
     # F34: Ket(0,0) @ Bits(0) @ Ket(1) >> Id(1) @ Measure(1, True, True) @ Id(1) >> Id(qubit @ bit) @ Measure()
     ("F34", [[], [[[0, [0, 0]], 0], [[2, [0], 0], 2], [[0, [1]], 3], [[5, 1, 1, 1], 1], [[5, 1, 1, 0], 2]]]),
+    # F37: Ket(0) >> Measure() >> NOT >> Ket(1) @ Id(bit) >> Measure(1, destructive=False, override_bits=True)
+    ("F37", [[], [[[0, [0]], 0], [[5, 1, 1, 0], 0], [[8, 1, 1, 1], 0], [[0, [1]], 0], [[5, 1, 0, 1], 0]]]),
     # F35: Ket(0) >> Measure() >> NOT
     ("F35", [[], [[[0, [0]], 0], [[5, 1, 1, 0], 0], [[8, 1, 1, 1], 0]]]),
     # F36: Ket(0) >> Measure() >> Copy >> Id(bit ** 2) @ Bits(0)
@@ -344,11 +358,11 @@ def live_size(c):
     return best
 
 
-def reference(rep, tksim, c):
+def reference(rep, tksim, c, limit=9):
     """Local evaluation of a circuit: DisCoPy's mixed evaluation of init_and_discard().
     When that is blocked by F9 (checked on the offending box itself), or the circuit
-    keeps more than 4 qubits alive at once (from_tk prepares every qubit up front; the
-    CQMap evaluation then takes minutes), the harness's own exact evaluator is used; it is
+    is wide (2 * qubits + bits > limit at some layer: from_tk prepares every qubit up front and
+    the CQMap evaluation then takes seconds to minutes), the harness's own exact evaluator is used; it is
     cross-checked against DisCoPy's evaluation on every case where both run."""
     from discopy.quantum.circuit import Measure
     full = c.init_and_discard()
@@ -362,7 +376,7 @@ def reference(rep, tksim, c):
         rep.known_finding("F9", FINDINGS["F9"])
         rep.count("reference:dsim(F9)")
         return own
-    if own is not None and live_size(full) > 9:
+    if own is not None and live_size(full) > limit:
         rep.count("reference:dsim(size)")
         return own
     ev = np.asarray(common.with_timeout(60, lambda: full.eval(mixed=True)).array)
@@ -406,7 +420,7 @@ def check_export(rep, ti, tksim, dtk, prog, answer, name):
                "model_flags": flags, "model_routing_ok": rok, "replay": snippet("export", prog)}
 
     def known_or_violation(what, model_violates):
-        trig = sorted({fid for fid, on in zip(FLAG_IDS, flags) if on})
+        trig = sorted({fid for fid, on in zip(FLAG_IDS, flags) if on and not FIXED.get(fid, False)})
         if agree and model_violates and trig:
             for fid in trig:
                 rep.known_finding(fid, FINDINGS[fid])
@@ -468,7 +482,8 @@ def check_export(rep, ti, tksim, dtk, prog, answer, name):
                 pre = tksim.postprocess_only_select_scale(tkc, tksim.simulate(tkc))
             except Exception:  # noqa
                 pass
-            if tkc.post_processing.boxes and raw is not None and pre is not None and same(raw, pre):
+            if not FIXED["F35"] and tkc.post_processing.boxes and raw is not None and pre is not None \
+                    and same(raw, pre):
                 rep.known_finding("F35", FINDINGS["F35"])
                 rep.count("oracle_b:known(F35)")
             else:
@@ -499,7 +514,7 @@ def check_import(rep, ti, tksim, tkc, want, payload, family, f32=False):
                           dict(payload, tk=repr(tkc)))
         return
     impl = common.with_timeout(20, ti.observe_from_tk, tkc)
-    ans = common.run_model("tk", [[2, prog2[0], prog2[1]]])[0]
+    ans = common.run_model("tk", [[2, SWITCHES, prog2[0], prog2[1]]])[0]
     res, trace_ok, routing_ok, (f18, f33) = ans[1]
     model = [1, res[1]] if (len(res) == 2 and res[0] == 1 and not isinstance(res[1], list)) else [0, res]
     agree = freeze(impl) == freeze(model)
@@ -514,9 +529,9 @@ def check_import(rep, ti, tksim, tkc, want, payload, family, f32=False):
 
     def known_or_violation(what):
         trig = []
-        if f18 and psel:
+        if f18 and psel and not FIXED["F18"]:
             trig.append("F18")
-        if f33 and not trace_ok:
+        if f33 and not trace_ok and not FIXED["F33"]:
             trig.append("F33")
         if agree and trig:
             for fid in trig:
@@ -537,7 +552,7 @@ def check_import(rep, ti, tksim, tkc, want, payload, family, f32=False):
     if len(c2.dom) != 0 or any(x.name != "bit" for x in c2.cod):
         rep.violation("from_tk returned a circuit with inputs or qubit outputs", payload)
         return
-    ev2 = reference(rep, tksim, c2)
+    ev2 = reference(rep, tksim, c2, limit=7)    # from_tk keeps every qubit alive to the end
     ok = same(ev2, want)
     rep.count(family + ":oracle:" + ("pass" if ok else "fail"))
     if not ok:
@@ -545,8 +560,14 @@ def check_import(rep, ti, tksim, tkc, want, payload, family, f32=False):
         payload["tket_distribution"] = repr(np.round(want, 6).tolist())
         known_or_violation("the circuit returned by from_tk does not compute the tket circuit")
     elif not psel and not (trace_ok and routing_ok):
+        if FIXED["F33"]:
+            # from_tk_refines_trace_stmt / routing for the repaired import, evaluated by the model
+            rep.violation("the model's import applies a gate or a measurement to the wrong wire although "
+                          "no known trigger holds (unclassified defect)", dict(payload))
         rep.count(family + ":model-flags-violation-but-numerically-equal")
         rep.extra.setdefault("numerically_invisible", []).append([repr(tkc), trace_ok, routing_ok])
+    elif not psel:
+        rep.count(family + ":model-trace-and-routing-ok")
 
 
 def replay(kind, payload):
@@ -667,15 +688,17 @@ def run(tier, seed):
     scope = small_scope(f10_prefix, 3 if quick else 4)
     if quick:
         scope = [p for i, p in enumerate(scope) if i % 4 == 0 or len(p[1]) <= 3]
+    else:       # every continuation by <= 3 layers, one in twelve of those by 4
+        scope = [p for i, p in enumerate(scope) if i % 12 == 0 or len(p[1]) <= 4]
     cases += [("scope", p) for p in scope]
-    n_rand = 800 if quick else 12000
+    n_rand = 600 if quick else 4000
     for i in range(n_rand):
         wild = 0.5 if i % 7 == 0 else 0.0           # ~15 % malformed / non-exportable stream
         clean = (i % 2 == 0) and not wild
         cases.append(("wild" if wild else "clean" if clean else "random",
                       gen_circuit(rng, ti, rng.randint(1, 9), wild=wild,
                                   open_dom=rng.random() < 0.25, clean=clean)))
-    answers = common.run_model_parallel("tk", [[1, p] for _, p in cases])
+    answers = common.run_model_parallel("tk", [[1, SWITCHES, p] for _, p in cases])
     seen, items = set(), []
     for (name, prog), ans in zip(cases, answers):
         key = common.to_sexp(prog)
@@ -687,7 +710,7 @@ def run(tier, seed):
         items.append((name, prog, ans))
 
     # (d) random tket circuits over (mostly) supported operations
-    n_tk = 400 if quick else 6000
+    n_tk = 300 if quick else 2000
     hand = [tk.Circuit(4).X(0).CX(0, 3), tk.Circuit(4, 1).X(0).CX(0, 3).Measure(3, 0), tk.Circuit(4).X(3).CX(3, 0), tk.Circuit(3).H(1).CX(1, 2).CX(1, 0),
             tk.Circuit(3, 3).X(0).CX(0, 2).Measure(2, 0).Measure(0, 2), tk.Circuit(2).SWAP(0, 1),
             tk.Circuit(1, 1), tk.Circuit(0, 0), tk.Circuit(2, 1).Rx(0.5, 1).CRz(1.25, 1, 0).Measure(0, 0)]
@@ -717,10 +740,11 @@ def run(tier, seed):
             rep.case(canonical, nontrivial=nontrivial, sample=sample)
             rep.programs += 1
 
+    rep.extra["repair_switches"] = dict(FIXED)
     base.settle(rep, "C13", proof_ok, "C13")
     return rep.finish(
-        rule="to_tk: corpus of doc examples and finding reproducers; every continuation by <= %d layers of "
-             "Ket(1, 0) over {Measure (destructive or not), Bra(0), X, Swap, Bits(0), Ket(0), NOT} at every "
+        rule="to_tk: corpus of doc examples and finding reproducers; continuations by <= %d layers (all of them "
+             "up to 2 (quick) / 3 (thorough) layers, a fixed sample of the longest) of Ket(1, 0) over {Measure (destructive or not), Bra(0), X, Swap, Bits(0), Ket(0), NOT} at every "
              "offset; %d random circuits grown forwards (<= 3 live qubits, <= 3 live bits, preparations / "
              "post-selections / measurements / swaps at any depth, phases k/16), half of them 'clean' (bits only "
              "added at the right end), one in seven from a malformed / non-exportable stream; from_tk: the export "
